@@ -348,7 +348,7 @@ def load_findings():
 # predicates over canonical violation descriptors (dicts). Closed set; see DESIGN.md section 3.
 def _pred_chain_longer_than_sentinel(d, args):
     return d.get("kind") == "chain" and d.get("chain_len", 0) >= args.get("min_len", 65) and \
-        d.get("aspect") in ("enter_after_abort", "log")
+        d.get("aspect") in ("enter", "probe", "log")
 
 
 PREDICATES = {
